@@ -64,11 +64,11 @@ def stream_strategy(tier):
         if mode == "roll":
             nrows = draw(st.integers(1, 8))
             base = draw(st.sampled_from([15, 15, 15, 14, 12, 8, 3]))
-            vary = draw(st.integers(0, 4)) == 0
+            vary = draw(st.sampled_from([0, 0, 0, 1, 2]))   # fixed base row / random rows / one row lower each time
             rows = []
             for i in range(nrows):
                 rows.append({"parts": draw(row_strategy()),
-                             "row": draw(st.integers(2, 15)) if vary else base,
+                             "row": (draw(st.integers(2, 15)) if vary != 2 else min(15, 10 + i)) if vary else base,
                              "indent": draw(st.sampled_from([0, 0, 4, 8, 28])),
                              "gap": draw(st.integers(3, 40))})
             return {"mode": "roll", "ru": draw(st.sampled_from(["RU2", "RU3", "RU4"])),
@@ -168,10 +168,11 @@ def check_stream(case, rec):
     exp = _squash("".join(rows))
     require(got == exp,
             lambda: f"text not conserved: read {got!r}, transmitted {exp!r} (rows {rows}); document: {doc}")
+    all_lines = [ln for t in texts for ln in t.split("\n")]
     for r in rows:
         rr = _squash(r)
-        require(any(rr in _squash(t) for t in texts),
-                lambda: f"row {r!r} is not kept together inside one caption: captions {texts}; document: {doc}")
+        require(any(rr in _squash(ln) for ln in all_lines),
+                lambda: f"row {r!r} is not kept together on one line of one caption: captions {texts}; document: {doc}")
     groups = []
     for c in caps:
         if groups and groups[-1][0] == c.start:
